@@ -196,7 +196,7 @@ def convert_reuse(ap_file, w1, w2, **kw):
     return status, events, conv, exc
 
 
-def convert_opts(ap_file, init=None, *, compress=False, post_check=False, overwrite=False, decline_first=False, np21=None):
+def convert_opts(ap_file, init=None, *, compress=False, post_check=False, overwrite=False, decline_first=False, np21=None, twice=False):
     """one real NP2Converter run with arbitrary `init_params` keywords (`init` None: init_params is not called, the defaults the
     constructor set stand). decline_first: process() is first called without overwrite on the same object (output exists: it
     declines), then process(overwrite=True) is the observed run. np21: keyword arguments (offset / assert_shanks) for a direct
@@ -208,7 +208,9 @@ def convert_opts(ap_file, init=None, *, compress=False, post_check=False, overwr
         conv = neuropixel.NP2Converter(ap_file, post_check=post_check, compress=compress, delete_original=False)
         if init is not None:
             conv.init_params(**init)
-        if decline_first:
+        if decline_first or twice:
+            # decline_first: the output exists, the first call declines; twice: the first call converts (and, with compress, leaves
+            # the object pointing at what it compressed); the observed run is the same object's process(overwrite=True)
             first_status = conv.process()
             overwrite = True
         rec = Recorder(conv, offset=(np21 or {}).get("offset", 0))
